@@ -5,9 +5,11 @@
     and forward/backward seeks, also on top of an older longer stream = rewrite from the start); compression
     header; n-bit field extraction and mask construction over their complete finite domains.
     Partial (named ..._partial, missing lemma stated): n-bit projection through the bit stream, skipping Huffman.
-    Not proved here (correspondence only): Hbitwrite/Hbitread re-partitioning (bw_write/br_read models). *)
-From Coq Require Import ZArith List Bool String.
-Require Import H4.gen.Gen_Comp H4.CompSpec H4.CompRleModel H4.CompRleProofs H4.CompCodecModel H4.CompCodecProofs.
+    Bit I/O (Hbitwrite / flush / Hbitread / Hbitseek bit manipulation, widths 1..32): full strength at the level of
+    the byte stream (bitio_roundtrip, bitio_same_widths). *)
+From Coq Require Import ZArith List Bool String Lia.
+Require Import H4.gen.Gen_Comp H4.CompSpec H4.CompRleModel H4.CompRleProofs H4.CompCodecModel H4.CompCodecProofs
+  H4.CompBitioProofs H4.CompBitbufModel H4.CompBitbufProofs H4.CompNbitProofs.
 Import ListNotations.
 Local Open Scope Z_scope.
 Notation concat := List.concat.
@@ -66,13 +68,26 @@ Print Assumptions nbit_byte_projection.
 (** n-bit, mask table (complete finite domain: sizes 1,2,4,8 x every start bit x every length): the table built
     by the loop of HCIcnbit_init is the big-endian byte image of the documented field mask
     [ones(len) << (start-len+1)], every entry has the per-byte shape above, the lengths add up to bit_len.
-    PARTIAL with respect to the property: what is missing for "decode (encode v) = nbit_project v" for all values
-    is the lemma that br_read returns the fields bw_write stored (bit-stream re-partitioning, not proved) and
-    the sign-extension step; both are covered by the correspondence run only. *)
+    PARTIAL with respect to the property: together with nbit_byte_projection and nbit_bitstream (below: the decoder
+    reading the encoder's stream gets back exactly the encoder's fields) this covers mask construction, field
+    extraction / re-insertion and the bit stream; what is still missing for "nbit_decode (nbit_encode v) =
+    nbit_project v" as ONE statement is the composition through the control structure of nbit_decode_bytes and
+    the sign-extension step (high bytes 0x00/0xff, sign byte or-ed / and-ed with sign_ext_mask), which rest on
+    the correspondence run (extracted nbit_decode on the library's raw streams vs nbit_project). *)
 Theorem nbit_projection_partial : forall size start len,
   In size [1; 2; 4; 8] -> 0 <= start < 8 * size -> 1 <= len <= start + 1 -> nbit_cfg_case size start len = true.
 Proof. exact nbit_masks_lemma. Qed.
 Print Assumptions nbit_projection_partial.
+
+(** n-bit bit-stream lemma: for every valid configuration and every byte list, reading the stream produced by the
+    n-bit encoder with the widths of the mask table returns exactly the fields the encoder extracted. *)
+Theorem nbit_bitstream : forall size start len se fo bytes,
+  In size [1; 2; 4; 8] -> 0 <= start < 8 * size -> 1 <= len <= start + 1 -> Forall byte bytes ->
+  let c := mk_nbit size start len se fo in
+  let fields := nbit_encode_fields (nbit_mask_info c) (nbit_mask_info c) bytes in
+  br_run (nbit_encode c bytes) (bitr_init (nbit_encode c bytes)) (map (fun w => BOr (fst w)) fields) = Some (map snd fields).
+Proof. exact nbit_bitstream_lemma. Qed.
+Print Assumptions nbit_bitstream.
 
 (** Skipping Huffman.  PARTIAL: (a) from the initial tree every one of the 256 symbols decodes to itself and the
     decoder consumes exactly the code (complete finite domain); (b) lock-step: if the walk returns the encoded
@@ -105,7 +120,51 @@ Theorem deflate_roundtrip_under_zlib :
 Proof. exact deflate_roundtrip_lemma. Qed.
 Print Assumptions deflate_roundtrip_under_zlib.
 
+(** Bit-granular I/O: ANY sequence of Hbitwrite(count_i, v_i) with 1 <= count_i <= 32 followed by the flush, read
+    back with ANY sequence of Hbitread widths 1..32 (any re-partition) and Hbitseek(byte, bit) positions that stay
+    inside the written bits, returns exactly what the bit-array specification returns (CompSpec.b_step: a read
+    is [bits_value] of the next [count] bits of the concatenated written fields, a seek sets the position). *)
+Theorem bitio_roundtrip : forall (ws : list (Z * Z)) (ops : list bop),
+  Forall wr_ok ws -> bops_ok (stream_len ws) 0 ops = true ->
+  let bytes := bw_flush (bw_writes bitw_init ws) in
+  br_run bytes (bitr_init bytes) ops = Some (spec_bit_run (ws_bits ws) 0 ops).
+Proof. exact bitio_roundtrip_lemma. Qed.
+Print Assumptions bitio_roundtrip.
+
+(** In particular, reading with the widths that were written returns every value modulo 2^width. *)
+Theorem bitio_same_widths : forall ws, Forall wr_ok ws ->
+  let bytes := bw_flush (bw_writes bitw_init ws) in
+  br_run bytes (bitr_init bytes) (map (fun w => BOr (fst w)) ws) = Some (map (fun w => snd w mod 2 ^ fst w) ws).
+Proof. exact bitio_same_widths_lemma. Qed.
+Print Assumptions bitio_same_widths.
+
+(** Reads and seeks over ANY stored byte list (e.g. one written by another coder) return the bit fields of the
+    big-endian integer the bytes denote. *)
+Theorem bitio_reads_any_bytes : forall bytes, Forall byte bytes -> forall ops s p, br_at bytes s p -> 0 <= p ->
+  bops_ok (8 * zlen bytes) p ops = true ->
+  br_run bytes s ops = Some (field_run (be_value bytes) (8 * zlen bytes) p ops).
+Proof. exact br_run_fields. Qed.
+Print Assumptions bitio_reads_any_bytes.
+
+(** The block buffer of the bit reader (Hstartbitread pre-read, the refill inside Hbitread with its block_offset /
+    buf_read bookkeeping, Hbitseek within the buffered block or into another 4096-byte block): for EVERY stored
+    element of at least one byte and EVERY sequence of reads (widths 1..32) and bit seeks inside it, the values
+    delivered are the bit fields of the stored bytes. *)
+Theorem bitbuf_reads : forall elt ops, Forall byte elt -> 0 < zlen elt ->
+  bops_ok (8 * zlen elt) 0 (map to_bop ops) = true ->
+  bb_run elt (bb_start elt) ops = Some (field_run (be_value elt) (8 * zlen elt) 0 (map to_bop ops)).
+Proof. exact bitbuf_reads_lemma. Qed.
+Print Assumptions bitbuf_reads.
+
 (** Non-vacuity: the hypotheses are met by concrete, non-trivial states. *)
+Example bitio_domain_example :
+  let ws := [(3, 5); (13, 4097); (32, 4294967295); (1, 0); (7, 200)] in
+  let ops := [BOr 4; BOr 12; BOs 1 3; BOr 32; BOs 0 0; BOr 3; BOr 13; BOs 6 1; BOr 7] in
+  Forall wr_ok ws /\ bops_ok (stream_len ws) 0 ops = true /\
+  br_run (bw_flush (bw_writes bitw_init ws)) (bitr_init (bw_flush (bw_writes bitw_init ws))) ops
+    = Some [11; 1; 268435455; 5; 4097; 72].
+Proof. repeat split; try (vm_compute; reflexivity). repeat constructor; cbn; lia. Qed.
+
 Example rle_domain_example :
   let calls := [[1; 1]; [1; 1; 2; 2; 2]; [9]] in
   let ops := [RRead 3; RSeek 6; RRead 2; RSeek 1; RRead 7] in
